@@ -129,7 +129,7 @@ def rec(matches):
 
 def plan(tier, seed):
     n = 14 if tier == "quick" else 46
-    return [{"kind": ["std", "ext", "ext"][i % 3], "n": 260 if tier == "quick" else 1500} for i in range(n)]
+    return [{"kind": ["std", "ext", "ext"][i % 3], "n": 600 if tier == "quick" else 3000} for i in range(n)]
 
 
 def install():
